@@ -130,6 +130,10 @@ pub struct ArcOpts {
     pub dot_prefix: bool,
     pub gnu: bool,
     pub deflate: bool,
+    /// bit 0: file members two or more levels deep are spelt with a detour (`a/b/zz/../f.txt`);
+    /// bit 1: on the file system some files and one top-level directory are symbolic links to things outside the root
+    #[serde(default)]
+    pub extra: u8,
 }
 #[derive(Clone, Copy, Debug, Serialize, Deserialize, PartialEq)]
 pub enum RFault {
@@ -251,7 +255,12 @@ fn members(t: &FsTree, o: &ArcOpts) -> Vec<(bool, String)> {
     }
     for k in t.files.keys() {
         let (id, ext) = unfk(k);
-        v.push((false, format!("{}\u{0}{}", rel_path(id, Some(ext)), k)));
+        let mut path = rel_path(id, Some(ext));
+        if o.extra & 1 != 0 && path.matches('/').count() >= 2 && fnv(k.as_bytes()) % 3 == 0 {
+            let cut = path.rfind('/').unwrap();
+            path = format!("{}/zz/..{}", &path[..cut], &path[cut..]);
+        }
+        v.push((false, format!("{}\u{0}{}", path, k)));
     }
     if o.order != 0 {
         let seed = o.order;
@@ -262,8 +271,11 @@ fn members(t: &FsTree, o: &ArcOpts) -> Vec<(bool, String)> {
 /// `tar::Builder::append_data` normalises a leading "./" away; real archives (`tar -cf x.tar .`) have it. The member name is
 /// written into the header by hand for names that fit the plain 100-byte field.
 fn append_dot_prefixed(b: &mut tar::Builder<Vec<u8>>, h: &mut tar::Header, path: &str, data: &[u8]) -> bool {
-    let name = format!("./{path}");
-    if name.len() > 99 || h.set_path(path).is_err() {
+    append_raw(b, h, &format!("./{path}"), data, "reach.tar_dot_prefixed_member")
+}
+/// Writes `name` into the header as it is (the builder refuses or rewrites `./` and `..`).
+fn append_raw(b: &mut tar::Builder<Vec<u8>>, h: &mut tar::Header, name: &str, data: &[u8], probe: &'static str) -> bool {
+    if name.len() > 99 || h.set_path("placeholder").is_err() {
         return false;
     }
     {
@@ -273,7 +285,7 @@ fn append_dot_prefixed(b: &mut tar::Builder<Vec<u8>>, h: &mut tar::Header, path:
     }
     h.set_cksum();
     b.append(h, data).unwrap();
-    detsim::count("reach.tar_dot_prefixed_member");
+    detsim::count(probe);
     true
 }
 pub fn build_tar(t: &FsTree, o: &ArcOpts) -> Vec<u8> {
@@ -298,7 +310,17 @@ pub fn build_tar(t: &FsTree, o: &ArcOpts) -> Vec<u8> {
             let data = &t.files[key];
             h.set_size(data.len() as u64);
             let path = path.to_string();
-            if o.dot_prefix && append_dot_prefixed(&mut b, &mut h, &path, &data[..]) {
+            if path.contains("/../") {
+                let name = format!("{}{}", if o.dot_prefix { "./" } else { "" }, path);
+                if !append_raw(&mut b, &mut h, &name, &data[..], "reach.archive_member_with_dotdot") {
+                    // too long for a hand-written header: the plain spelling
+                    let plain = path.replace("/zz/..", "");
+                    let mut h = tar::Header::new_gnu();
+                    h.set_mode(0o644);
+                    h.set_size(data.len() as u64);
+                    b.append_data(&mut h, &plain, &data[..]).unwrap();
+                }
+            } else if o.dot_prefix && append_dot_prefixed(&mut b, &mut h, &path, &data[..]) {
             } else if b.append_data(&mut h, &path, &data[..]).is_err() {
                 // ustar cannot express every long path: fall back to a GNU long-name member
                 let mut h = tar::Header::new_gnu();
@@ -321,6 +343,9 @@ pub fn build_zip(t: &FsTree, o: &ArcOpts) -> Vec<u8> {
             w.add_directory(format!("{}{}", if o.dot_prefix { "./" } else { "" }, p), opt).unwrap();
         } else {
             let (path, key) = p.split_once('\u{0}').unwrap();
+            if path.contains("/../") {
+                detsim::count("reach.archive_member_with_dotdot");
+            }
             w.start_file(format!("{}{}", if o.dot_prefix { "./" } else { "" }, path), opt).unwrap();
             w.write_all(&t.files[key]).unwrap();
         }
@@ -328,7 +353,22 @@ pub fn build_zip(t: &FsTree, o: &ArcOpts) -> Vec<u8> {
     w.finish().unwrap().into_inner()
 }
 pub fn write_dir(t: &FsTree, root: &Path) {
+    write_dir_links(t, root, 0)
+}
+/// `links` != 0: one top-level directory is a symbolic link to a directory outside the root, and some files are
+/// symbolic links to files outside the root (sources follow links: the tree they show is the same).
+pub fn write_dir_links(t: &FsTree, root: &Path, links: u64) {
     std::fs::create_dir_all(root).unwrap();
+    let store = root.parent().unwrap().join("store");
+    if links != 0 {
+        std::fs::create_dir_all(&store).unwrap();
+        if let Some(d) = t.dirs.iter().filter(|d| !d.contains('.')).nth((links % 3) as usize) {
+            let target = store.join(format!("dir-{}", fnv(d.as_bytes())));
+            std::fs::create_dir_all(&target).unwrap();
+            std::os::unix::fs::symlink(&target, root.join(rel_path(d, None))).unwrap();
+            detsim::count("reach.symlinked_directory");
+        }
+    }
     for d in &t.dirs {
         std::fs::create_dir_all(root.join(rel_path(d, None))).unwrap();
     }
@@ -336,6 +376,13 @@ pub fn write_dir(t: &FsTree, root: &Path) {
         let (id, ext) = unfk(k);
         let p = root.join(rel_path(id, Some(ext)));
         std::fs::create_dir_all(p.parent().unwrap()).unwrap();
+        if links != 0 && detsim::mix(links, fnv(k.as_bytes())) % 4 == 0 {
+            let target = store.join(format!("file-{}", fnv(k.as_bytes())));
+            std::fs::write(&target, data).unwrap();
+            std::os::unix::fs::symlink(&target, p).unwrap();
+            detsim::count("reach.symlinked_file");
+            continue;
+        }
         std::fs::write(p, data).unwrap();
     }
 }
@@ -497,7 +544,7 @@ impl Property for C04 {
         let mut knobs = Knobs::draw(k);
         knobs.max_steps = 3_000_000;
         let tree = gen_tree(g);
-        let opts = ArcOpts { order: if g.chance(1, 3) { 0 } else { g.next() | 1 }, dir_members: g.chance(4, 5), dot_prefix: g.chance(1, 4), gnu: g.chance(2, 3), deflate: g.chance(1, 2) };
+        let opts = ArcOpts { order: if g.chance(1, 3) { 0 } else { g.next() | 1 }, dir_members: g.chance(4, 5), dot_prefix: g.chance(1, 4), gnu: g.chance(2, 3), deflate: g.chance(1, 2), extra: if g.chance(1, 3) { 1 + g.below(3) as u8 } else { 0 } };
         // short reads cost one scheduling point per chunk: keep the number of chunks per run bounded
         let total: usize = tree.files.values().map(|v| v.len()).sum::<usize>() + 512 * tree.files.len();
         let min_chunk = 1 + total / 1500;
@@ -588,7 +635,7 @@ fn scenario(w: Work) {
     let dir = scratch();
     let _rm = RmOnDrop(dir.clone());
     let root = dir.join("root");
-    write_dir(&w.tree, &root);
+    write_dir_links(&w.tree, &root, if w.opts.extra & 2 != 0 { w.opts.order | 1 } else { 0 });
     let implicit = !w.opts.dir_members;
     let t = &w.tree;
     // 1. the file system itself and 4. the embedded form produced by the macro's walker
